@@ -92,6 +92,23 @@ def check_case(out: Outcome, case, tag):
         out.fail('property', 'graph-nodes', case, expected=sorted(want_nodes)[:6], observed=sorted(G.nodes)[:6])
         return
     reachable = opt['sum'] != 'none'
+    # the other neighbourhood mode requested on the SAME volume object afterwards must give that mode's graph
+    G_other = fev.free_energy_graph(max_energy_threshold=thr, diagonal=not diag)
+    oline = enc_grid(E, thr, not diag)
+    oo = core.drive1(f'optimum {oline} {enc_vox(start)} {enc_vox(stop)}').split()[1:]
+    try:
+        p2 = fev.optimal_path(F_graph=G_other, start=start, stop=stop, method='dijkstra')
+        s2 = [tuple(int(x) for x in q) for q in p2.sites]
+        pc2 = core.drive1(f'pathcheck {oline} {len(s2)} ' + ' '.join(enc_vox(q) for q in s2)).split()
+        if pc2[1] != '1':
+            out.fail('property', 'steps-between-admissible-neighbours', {**case, 'diag': not diag, 'second_mode_on_same_object': True}, observed=s2,
+                     note='graph requested with the other neighbourhood mode on the same volume object')
+        elif oo[0] != 'none' and core.dec_rat(pc2[2]) != core.dec_rat(oo[0]):
+            out.fail('property', 'cost-minimal', {**case, 'diag': not diag, 'second_mode_on_same_object': True}, expected=oo[0], observed=pc2[2],
+                     note='graph requested with the other neighbourhood mode on the same volume object')
+    except (nx.NetworkXNoPath, nx.NodeNotFound):
+        if oo[0] != 'none':
+            out.fail('property', 'path-exists-but-refused', {**case, 'diag': not diag, 'second_mode_on_same_object': True}, expected=oo[0])
     for method in case.get('methods', METHODS):
         c = {**case, 'method': method}
         try:
